@@ -621,8 +621,13 @@ class DiscoveryComputation(MessagePassingComputation):
 
     def _on_replica_publish(self, _, msg: PublishReplicaMessage):
         if msg.publish:
-            self.discovery.register_replica(msg.replica, msg.agent,
-                                            publish=False)
+            try:
+                self.discovery.register_replica(msg.replica, msg.agent,
+                                                publish=False)
+            except UnknownComputation:
+                # We do not know this computation (any more): nothing to
+                # keep track of.
+                pass
         else:
             self.discovery.unregister_replica(msg.replica, msg.agent,
                                               publish=False)
